@@ -82,8 +82,8 @@ def pred_f22(case, record, exp=None):
     return any(c["res"] == 4 for c in calls)
 
 
-BITS = [(1, "F16"), (2, "F17"), (4, "F21"), (8, "F22")]
-PRED_BY_ID = {"F16": pred_f16, "F17": pred_f17, "F21": pred_f21, "F22": pred_f22}
+BITS = [(1, "F16"), (4, "F21"), (8, "F22")]   # bit 2 was F17 (fixed in /repo 60d9770; the model no longer deviates there)
+PRED_BY_ID = {"F16": pred_f16, "F21": pred_f21, "F22": pred_f22}
 
 
 # ---------------------------------------------------------------------------------------------------
@@ -288,7 +288,7 @@ CFG = {
         "a native function always re-panics an uncatchable error returned to it by Callable/RunString",
         "the implementation is tied to the model only on the generated histories (correspondence), not by proof",
     ],
-    "predicates": {"C03.f16": pred_f16, "C03.f17": pred_f17, "C03.f21": pred_f21, "C03.f22": pred_f22},
+    "predicates": {"C03.f16": pred_f16, "C03.f21": pred_f21, "C03.f22": pred_f22},
     "manifest": {
         "text": ("proof: for every execution tree (JS frames, native frames calling back through Callable / accessor Get / "
                  "re-entrant RunProgram / Try / ForOf, try regions, iterator regions, generator and async resumptions, promise "
